@@ -232,6 +232,40 @@ fn observe(w: &Window<u32>, m: &VecDeque<u32>, full: bool, phase: usize, who: &s
 					}
 				}};
 			}
+			// nth / skip far beyond the end, around the capacity of PeriodType and of 16 bits (an index
+			// narrowed before it is compared would wrap back into range)
+			if k <= 1 || k + 1 >= n || k == n / 2 {
+				let want_rem: Vec<u32> = want_seq.iter().skip(k).copied().collect();
+				let r = want_rem.len();
+				for j in [0usize, 1, r.saturating_sub(1), r, r + 1, 254, 255, 256, 257, 256 + r.saturating_sub(1), 511, 512, 65535, 65536, 65536 + r.saturating_sub(1), usize::MAX] {
+					let (got_nth, got_skip) = if rev {
+						let mut d = w.iter_rev();
+						for _ in 0..k {
+							d.next();
+						}
+						let mut e = w.iter_rev();
+						for _ in 0..k {
+							e.next();
+						}
+						(d.nth(j).copied(), e.skip(j).next().copied())
+					} else {
+						let mut d = w.iter();
+						for _ in 0..k {
+							d.next();
+						}
+						let mut e = w.iter();
+						for _ in 0..k {
+							e.next();
+						}
+						(d.nth(j).copied(), e.skip(j).next().copied())
+					};
+					let want = want_rem.get(j).copied();
+					if got_nth != want || got_skip != want {
+						return Err(fail(nm, &format!("nth/{consumed_class}"), format!("after {k} of {n}: nth({j}) = {got_nth:?}, skip({j}).next() = {got_skip:?}, expected {want:?}")));
+					}
+				}
+				obs += 32;
+			}
 			let (folded, nth1, sum1, collected, pos_last, mx) = advanced!();
 			{
 				let want_rem: Vec<u32> = want_seq.iter().skip(k).copied().collect();
